@@ -13,3 +13,32 @@ package podeni
 //@ func ReconcilePodENI.getENIIndex
 //@   requires m != nil && m.client != nil && m.nodeStatusCache != nil
 //@   panics
+
+//@ for C11
+
+//@ # ---- leaked-interface collector: only interfaces carrying every required tag (first tag with that key decides) ----
+//@ # firstTag(eni, k): index of the first tag of eni whose key is k (defined by the `assume` below; unconstrained if none)
+//@ pure func firstTag(eni *aliyunClient.NetworkInterface, k string) int
+//@ pure func tagMatch(eni *aliyunClient.NetworkInterface, k string, v string) bool = 0 <= firstTag(eni, k) && firstTag(eni, k) < len(eni.Tags) && eni.Tags[firstTag(eni, k)].TagKey == k && eni.Tags[firstTag(eni, k)].TagValue == v
+
+//@ # definition of firstTag: the first occurrence of a key is unique, so this is a conservative definitional extension
+//@ axiom firstTagDef(eni *aliyunClient.NetworkInterface, k string, i int): 0 <= i && i < len(eni.Tags) && eni.Tags[i].TagKey == k && (forall j int :: 0 <= j && j < i ==> eni.Tags[j].TagKey != k) ==> firstTag(eni, k) == i
+
+//@ func ReconcilePodENI.eniFilter
+//@   requires eni != nil
+//@   loop 1 use firstTagDef(eni, k, rangeindex + 1)
+//@   modifies nothing
+//@   # an interface passes only if, for every required key, its first tag with that key carries the required value
+//@   ensures result ==> forall k string :: k in filter ==> tagMatch(eni, k, filter[k])
+//@   loop 1 invariant forall k string :: seen(k) ==> tagMatch(eni, k, filter[k])
+//@   loop 2 invariant !found && (forall j int :: 0 <= j && j <= rangeindex ==> eni.Tags[j].TagKey != k)
+
+//@ # ---- fixed-IP records: pruned only when every fixed allocation's TTL has elapsed since the pod was last seen ----
+//@ pure func allocExpired(a v1beta1.Allocation, lastSeen metav1.Time, now int) bool = a.AllocationType.ReleaseStrategy == "TTL" && parseDurationOK(a.AllocationType.ReleaseAfter) && parseDurationVal(a.AllocationType.ReleaseAfter) >= 0 && instant(lastSeen) + parseDurationVal(a.AllocationType.ReleaseAfter) <= now
+
+//@ func ReconcilePodENI.gcCRPodENIs$1
+//@   loop 1 invariant !keep ==> forall j int :: 0 <= j && j <= rangeindex && podENI.Spec.Allocations[j].AllocationType.Type == "Fixed" ==> allocExpired(podENI.Spec.Allocations[j], podENI.Status.PodLastSeen, clock())
+
+//@ # the record is marked for deletion only if no fixed allocation asks to be kept: strategy Never keeps forever, TTL keeps
+//@ # until lastSeen + ReleaseAfter, anything unparsable keeps
+//@ guard call StatusWriter.Update in gcCRPodENIs$1: forall j int :: 0 <= j && j < len(podENI.Spec.Allocations) && podENI.Spec.Allocations[j].AllocationType.Type == "Fixed" ==> allocExpired(podENI.Spec.Allocations[j], podENI.Status.PodLastSeen, clock())
